@@ -25,6 +25,10 @@ fn ia(x: u8) -> IsdAsn {
     IsdAsn::from_u64(0x1_0000_0000_0000 + (x % 4) as u64 + 1)
 }
 
+fn ia6(x: u8) -> IsdAsn {
+    IsdAsn::from_u64(0x1_0000_0000_0000 + (x % 6) as u64 + 1)
+}
+
 // verif: prop=C07 tier=quick cap=600 bound="3-AS path A#e0 -> B#i1,B#e1 -> C#i2 with arbitrary interface ids; arbitrary Interface target (AS among 4, optional ingress, egress)" fns="IssueMarkerTarget::matches_path (Interface)" stubs="SHA-256 fingerprints -> cheap functions"
 #[kani::proof]
 #[kani::unwind(6)]
@@ -90,5 +94,45 @@ fn c07_first_last_hop_targets() {
     kani::cover!(got_last, "last-hop target matches");
     assert!(got_first == (t_as == a && t_if == ids[0]), "first-hop target: a report that matches no path in use must change nothing, one that matches must be seen");
     assert!(got_last == (t_as == c && t_if == ids[3]), "last-hop target matching wrong");
+    std::mem::forget(p);
+}
+
+// verif: prop=C07 tier=quick cap=900 bound="5-AS path A#e0 -> B#i1,#e1 -> C#i2,#e2 -> D#i3,#e3 -> E#i4 (three transit ASes) with arbitrary interface ids; arbitrary Interface target (AS among 6, optional ingress, egress)" fns="IssueMarkerTarget::matches_path (Interface)" stubs="SHA-256 fingerprints -> cheap functions"
+#[kani::proof]
+#[kani::unwind(10)]
+#[kani::stub(sciparse::path::fingerprint::data_plane::DpPathFingerprint::from_dp_path, fp_stub)]
+#[kani::stub(sciparse::path::fingerprint::control_plane::PathFingerprint::try_from_scion_path, cp_stub)]
+fn c07_iface_target_5as() {
+    let ids: [u16; 8] = kani::any();
+    let asn = [ia6(0), ia6(1), ia6(2), ia6(3), ia6(4)];
+    let owner = [0usize, 1, 1, 2, 2, 3, 3, 4];
+    let mut ifs = Vec::with_capacity(8);
+    let mut k = 0;
+    while k < 8 {
+        ifs.push(InterfaceMetadata::new_without_metadata(PathInterface { isd_asn: asn[owner[k]], id: ids[k] }));
+        k += 1;
+    }
+    let md = PathMetadata { expiration: 0, mtu: 1500, interfaces: Some(ifs), epic_auth: None, notes: None };
+    let p = ScionPath::new(asn[0], asn[4], ScionDpPathView::Empty, Some(md), None);
+    let fp = p.fingerprint();
+    let tx: u8 = kani::any();
+    let target_as = ia6(tx);
+    let egress: u16 = kani::any();
+    let ing: Option<u16> = kani::any();
+    let t = IssueMarkerTarget::Interface { isd_asn: target_as, ingress_filter: ing, egress_filter: egress };
+    let got = t.matches_path(&p, &fp);
+    // reference: the (optional ingress, egress) pair is traversed at that AS; the source AS has
+    // no ingress, the destination AS has no egress
+    let mut want = target_as == asn[0] && ing.is_none() && ids[0] == egress;
+    let mut m = 1;
+    while m < 4 {
+        if target_as == asn[m] && ing.map_or(true, |i| i == ids[2 * m - 1]) && ids[2 * m] == egress {
+            want = true;
+        }
+        m += 1;
+    }
+    kani::cover!(got && target_as == asn[3], "third transit AS matched");
+    kani::cover!(!got && target_as == asn[2], "second transit AS not matched");
+    assert!(got == want, "interface target matches a path that does not traverse it, or misses one that does");
     std::mem::forget(p);
 }
